@@ -157,6 +157,7 @@ impl World {
                     violations: &mut self.violations,
                     stats: &mut self.stats,
                     tick: self.tick,
+                    quiet_mem_faults: self.cfg.hostile,
                 };
                 dev.on_config_write(off, data.len(), &mut ctx);
             }
